@@ -1,9 +1,9 @@
 (* C15 — averaged OTOC and graph complexity equal their orbit definitions.
    Model/Orbit.v: `bfs` is the deque/visited-set loop of average_otoc on fuel; the OTOC is 1 - 2a/s with
    s = |visited|, a = #{t in visited : t anticommutes with W}.  Fuel exhaustion returns None and is excluded by the
-   statements.  Proved for every n.  The level-BFS used for graph complexity is compared per run (its vertex set is
-   the same orbit; distances = shortest paths is not proved: partial for that clause). *)
-From PauLie Require Import Pauli Sym ClT ClSym Orbit OrbitT.
+   statements.  Proved for every n.  The level-by-level BFS of graph complexity (`levels`) labels every vertex of the
+   same orbit with its shortest-path distance from V, each vertex once (Theory/LevelsT.v). *)
+From PauLie Require Import Pauli Sym ClT ClSym Orbit OrbitT LevelsT.
 
 (* the visited set IS the orbit of V under repeated commutation with members of G, each element once *)
 Theorem C15_bfs_is_orbit : forall G v fuel vis, bfs G fuel [v] [] = Some vis ->
@@ -34,6 +34,15 @@ Theorem C15_generating_set_independent : forall (G H : list P) v t,
   (OrbS (fun g => In g G) v t <-> OrbS (fun g => In g H) v t).
 Proof. exact orbit_depends_on_closure. Qed.
 Print Assumptions C15_generating_set_independent.
+
+(* graph complexity: the returned (sum, size) are the sum of the shortest-path distances from V over its orbit and
+   the size of the orbit; dist G v t k = a walk of k commutation steps from v to t exists and none is shorter *)
+Theorem C15_complexity : forall n G v s z, complexity_counts n G v = Some (s, z) ->
+  exists l, (forall t k, In (t, k) l <-> dist (map enc G) (enc v) t k) /\ NoDup (map fst l) /\
+            (forall t, In t (map fst l) <-> OrbS (fun g => In g (map enc G)) (enc v) t) /\
+            s = list_sum (map snd l) /\ z = length l.
+Proof. exact complexity_spec. Qed.
+Print Assumptions C15_complexity.
 
 Example C15_example :
   otoc_counts 2 [[PX;PI]; [PZ;PI]; [PI;PX]] [PX;PI] [PZ;PI] = Some (2, 3)%nat /\
